@@ -1,0 +1,155 @@
+//go:build verif
+
+package sonic
+
+// Contracts for listener and packetConn (properties C01, C14, C12, C13).
+
+//@ immutable [C01,C14] listener.ioc packetConn.ioc constructors Listen, NewPacketConn
+
+//@ pred lInv(l *listener) = l.ioc != nil && l.ioc.poller != nil && internal.pInv(l.ioc.poller) && 0 <= l.slot.Fd
+//@ pred lArmed(l *listener) = internal.armed(&l.slot, internal.PollerReadEvent)
+
+//@ func fnparam:(*listener).*.cb
+//@   trusted
+//@   ensures internal.pInv(l.ioc.poller) && l.ioc.Dispatched == old(l.ioc.Dispatched)
+
+//@ func (*listener).handleAsyncAccept$1
+//@   prop C01
+//@   requires l != nil && lInv(l) && cb != nil
+//@   // a poller error or cancellation is passed on; otherwise the result of exactly one accept
+//@   assert call cb#1: arg0 == err
+//@   consumes cb
+
+//@ func (*listener).asyncAccept
+//@   prop C01, C03
+//@   requires lInv(l) && cb != nil && !lArmed(l)
+//@   consumes cb unless lArmed(l)
+//@   ensures [armed] invoked(cb) == 0 ==> l.ioc.poller.pending == old(l.ioc.poller.pending) + 1 && l.slot.Handlers[0] != nil
+//@   ensures [depth] l.ioc.Dispatched == old(l.ioc.Dispatched)
+
+//@ func (*listener).AsyncAccept
+//@   prop C01, C14
+//@   requires lInv(l) && cb != nil && !lArmed(l) && 0 <= l.ioc.Dispatched && l.ioc.Dispatched <= MaxCallbackDispatch
+//@   // the immediate attempt is made only below the dispatch limit, and completes one level deeper
+//@   assert call listener).accept: l.ioc.Dispatched < MaxCallbackDispatch
+//@   assert call cb: 1 <= l.ioc.Dispatched && l.ioc.Dispatched <= MaxCallbackDispatch
+//@   consumes cb unless lArmed(l)
+//@   ensures [depth] l.ioc.Dispatched == old(l.ioc.Dispatched)
+
+// --- packetConn ---
+
+//@ pred pcInv(c *packetConn) = c.ioc != nil && c.ioc.poller != nil && internal.pInv(c.ioc.poller) && 0 <= c.slot.Fd
+//@ pred pcArmedR(c *packetConn) = internal.armed(&c.slot, internal.PollerReadEvent)
+//@ pred pcArmedW(c *packetConn) = internal.armed(&c.slot, internal.PollerWriteEvent)
+
+//@ func fnparam:(*packetConn).*.cb
+//@   trusted
+//@   ensures internal.pInv(c.ioc.poller) && c.ioc.Dispatched == old(c.ioc.Dispatched)
+
+//@ func (*packetConn).Closed
+//@   pure
+
+//@ func ext:syscall.Recvfrom
+//@   trusted
+//@   ensures err == nil ==> 0 <= n && n <= len(p)
+//@   modifies mem(p)
+
+//@ func (*packetConn).ReadFrom
+//@   prop C12
+//@   requires pcInv(c)
+//@   // one recvfrom per call, into exactly the caller's buffer; the count is the datagram's (truncated) length
+//@   assert call syscall.Recvfrom: arg0 == c.slot.Fd && alias(arg1, b)
+//@   ensures [ok] err == nil ==> 0 < n && n <= len(b)
+//@   ensures [err] err != nil ==> n == 0
+//@   modifies mem(b)
+
+//@ func (*packetConn).WriteTo
+//@   prop C12
+//@   requires pcInv(c)
+//@   // one sendto per call with exactly the caller's bytes
+//@   assert call syscall.Sendto: arg0 == c.slot.Fd && alias(arg1, b)
+//@   modifies nothing
+
+//@ func (*packetConn).scheduleRead
+//@   prop C01, C03
+//@   requires pcInv(c) && cb != nil && !pcArmedR(c)
+//@   consumes cb unless pcArmedR(c)
+//@   ensures [armed] invoked(cb) == 0 ==> c.ioc.poller.pending == old(c.ioc.poller.pending) + 1 && c.slot.Handlers[0] != nil
+//@   ensures [write-side] invoked(cb) == 0 ==> pcArmedW(c) == old(pcArmedW(c))
+//@   ensures [depth] c.ioc.Dispatched == old(c.ioc.Dispatched)
+
+//@ func (*packetConn).asyncReadNow
+//@   prop C01, C12
+//@   requires pcInv(c) && cb != nil && !pcArmedR(c)
+//@   consumes cb unless pcArmedR(c)
+//@   ensures [depth] c.ioc.Dispatched == old(c.ioc.Dispatched)
+
+//@ func (*packetConn).getReadHandler$1
+//@   prop C01
+//@   requires c != nil && pcInv(c) && cb != nil && !pcArmedR(c)
+//@   consumes cb unless pcArmedR(c)
+
+//@ func (*packetConn).asyncReadFrom$1
+//@   prop C14, C01
+//@   requires c != nil && pcInv(c) && cb != nil && 0 <= c.ioc.Dispatched && c.ioc.Dispatched < MaxCallbackDispatch
+//@   assert call cb: 1 <= c.ioc.Dispatched && c.ioc.Dispatched <= MaxCallbackDispatch && arg0 == err && arg1 == n
+//@   consumes cb
+//@   ensures [depth] c.ioc.Dispatched == old(c.ioc.Dispatched)
+
+//@ func (*packetConn).asyncReadFrom
+//@   prop C01, C14
+//@   requires pcInv(c) && cb != nil && !pcArmedR(c) && 0 <= c.ioc.Dispatched && c.ioc.Dispatched <= MaxCallbackDispatch
+//@   inline call (*packetConn).asyncReadNow
+//@   assert call packetConn).ReadFrom: c.ioc.Dispatched < MaxCallbackDispatch
+//@   consumes cb unless pcArmedR(c)
+//@   ensures [depth] c.ioc.Dispatched == old(c.ioc.Dispatched)
+
+//@ func (*packetConn).scheduleWrite
+//@   prop C01, C03
+//@   requires pcInv(c) && cb != nil && !pcArmedW(c)
+//@   consumes cb unless pcArmedW(c)
+//@   ensures [armed] invoked(cb) == 0 ==> c.ioc.poller.pending == old(c.ioc.poller.pending) + 1 && c.slot.Handlers[1] != nil
+//@   ensures [read-side] invoked(cb) == 0 ==> pcArmedR(c) == old(pcArmedR(c))
+//@   ensures [depth] c.ioc.Dispatched == old(c.ioc.Dispatched)
+
+//@ func (*packetConn).asyncWriteToNow
+//@   prop C01, C12
+//@   requires pcInv(c) && cb != nil && !pcArmedW(c)
+//@   consumes cb unless pcArmedW(c)
+//@   ensures [depth] c.ioc.Dispatched == old(c.ioc.Dispatched)
+
+//@ func (*packetConn).getWriteHandler$1
+//@   prop C01
+//@   requires c != nil && pcInv(c) && cb != nil && !pcArmedW(c)
+//@   consumes cb unless pcArmedW(c)
+
+//@ func (*packetConn).AsyncWriteTo$1
+//@   prop C14, C01
+//@   requires c != nil && pcInv(c) && cb != nil && 0 <= c.ioc.Dispatched && c.ioc.Dispatched < MaxCallbackDispatch
+//@   assert call cb: 1 <= c.ioc.Dispatched && c.ioc.Dispatched <= MaxCallbackDispatch && arg0 == err
+//@   consumes cb
+//@   ensures [depth] c.ioc.Dispatched == old(c.ioc.Dispatched)
+
+//@ func (*packetConn).AsyncWriteTo
+//@   prop C01, C14
+//@   requires pcInv(c) && cb != nil && !pcArmedW(c) && 0 <= c.ioc.Dispatched && c.ioc.Dispatched <= MaxCallbackDispatch
+//@   inline call (*packetConn).asyncWriteToNow
+//@   assert call packetConn).WriteTo: c.ioc.Dispatched < MaxCallbackDispatch
+//@   consumes cb unless pcArmedW(c)
+//@   ensures [depth] c.ioc.Dispatched == old(c.ioc.Dispatched)
+
+//@ func ext:syscall.Sendto
+//@   trusted
+//@   modifies nothing
+
+//@ func (*listener).Close
+//@   prop C01, C03
+//@   requires lInv(l)
+//@   ensures [disarmed] !lArmed(l) && !internal.armed(&l.slot, internal.PollerWriteEvent)
+//@   ensures [accounting] l.ioc.poller.pending == old(l.ioc.poller.pending) - (old(lArmed(l)) ? 1 : 0) - (old(internal.armed(&l.slot, internal.PollerWriteEvent)) ? 1 : 0)
+
+//@ func (*packetConn).Close
+//@   prop C01, C03
+//@   requires pcInv(c)
+//@   ensures [disarmed] !pcArmedR(c) && !pcArmedW(c) && c.closed == 1
+//@   ensures [accounting] c.ioc.poller.pending == old(c.ioc.poller.pending) - (old(pcArmedR(c)) ? 1 : 0) - (old(pcArmedW(c)) ? 1 : 0)
